@@ -7,7 +7,7 @@ ALL = [f'C{i:02d}' for i in range(1, 21)]
 R = 'replicat/repository.py'
 EDITS = {
     'logging_everywhere': (ALL, [
-        (R, "        finished_files_count = 0\n", "        finished_files_count = 0\n        logger.debug('chunk done %r', chunk.counter)\n"),
+        (R, "            finished_files_count = 0\n", "            finished_files_count = 0\n            logger.debug('chunk done %r', chunk.counter)\n"),
         (R, "        chunks_to_delete.difference_update(chunks_to_keep)\n", "        chunks_to_delete.difference_update(chunks_to_keep)\n        logger.info('will delete %d chunks', len(chunks_to_delete))\n"),
         (R, "            logger.info('Verifying %s', location)\n            if self.props.hash_digest(decrypted_contents) != digest:", "            logger.info('Verifying %s (%d bytes)', location, len(decrypted_contents))\n            if self.props.hash_digest(decrypted_contents) != digest:"),
         ('replicat/utils/__init__.py', "        start = time.perf_counter()\n        data = self._file.read(size)", "        logger.debug('limited read of %r', size)\n        start = time.perf_counter()\n        data = self._file.read(size)"),
@@ -62,6 +62,17 @@ EDITS = {
         # the chunk producer's abort check with the log line first
         (R, "                    if abort.is_set():\n                        logging.info('Stopping chunk producer')\n                        return\n\n                    try:\n                        chunk_queue.put(chunk, timeout=queue_timeout)",
          "                    stop = abort.is_set()\n                    if stop:\n                        logging.info('Stopping chunk producer')\n                        return\n\n                    try:\n                        chunk_queue.put(chunk, timeout=queue_timeout)"),
+    ]),
+    # equivalent spellings of the code the round-7 contracts talk about
+    'equivalent_refactors_3': (['C07', 'C01', 'C09', 'C15', 'C14', 'C02', 'C08', 'C13', 'C03', 'C05', 'C06', 'C17'], [
+        (R, "        files.sort(key=lambda file: (file.stat().st_size, str(file)))", "        files = sorted(files, key=lambda f: (f.stat().st_size, str(f)))"),
+        (R, "        chunk_producer = loop.run_in_executor(chunk_producer_executor, _chunk_producer)",
+            "        chunk_producer = asyncio.ensure_future(\n            loop.run_in_executor(chunk_producer_executor, _chunk_producer)\n        )"),
+        (R, "        now = datetime.utcnow()\n        snapshot_data = {", "        now = datetime.now(timezone.utc).replace(tzinfo=None)\n        snapshot_data = {"),
+        ('replicat/backends/local.py', "        (self.path / name).unlink(missing_ok=True)", "        try:\n            (self.path / name).unlink()\n        except FileNotFoundError:\n            pass"),
+        ('replicat/backends/local.py', "        return os.path.exists(self.path / name)", "        return (self.path / name).exists()"),
+        ('replicat/utils/adapters.py', "        self.key_bits, self.nonce_bits = key_bits, nonce_bits\n", "        self.nonce_bits = nonce_bits\n        self.key_bits = key_bits\n"),
+        (R, "        self.display_status('Loading config')\n        props = self._parse_config(await self._download('config'))", "        self.display_status('Loading config')\n        config_contents = await self._download('config')\n        props = self._parse_config(config_contents)"),
     ]),
 }
 
